@@ -94,6 +94,23 @@ impl<'t> FieldTypeAndInstantiationsBuilder<'t, '_> {
 			}
 		}
 
+		// The name given to the node owned by a generic newtype struct has to be made unique
+		// per instantiation (like the name of a generic struct's record is), otherwise two
+		// instantiations under one root define the same name twice
+		let add_type_id_to_newtype_struct_name = (matches!(field_kind, FieldKind::NewtypeStruct { .. })
+			&& self
+				.generics
+				.params
+				.iter()
+				.any(|gp| !matches!(gp, syn::GenericParam::Lifetime(_))))
+		.then(|| {
+			quote! {
+				serde_avro_derive::hash_type_id(
+					&mut name,
+					std::any::TypeId::of::<<Self as serde_avro_derive::BuildSchema>::TypeLookup>(),
+				);
+			}
+		});
 		let mut new_name_for_owned_subnode = || match self.namespace {
 			None => 'new_name: {
 				let pattern = match field_kind {
@@ -113,9 +130,11 @@ impl<'t> FieldTypeAndInstantiationsBuilder<'t, '_> {
 					} => format!(r#"{{}}.{}.{}"#, enum_name.unraw(), variant_name.unraw()),
 				};
 				self.expand_namespace_var = true;
-				quote! {
-					format!(#pattern, namespace.get())
-				}
+				quote! {{
+					let mut name = format!(#pattern, namespace.get());
+					#add_type_id_to_newtype_struct_name
+					name
+				}}
 			}
 			Some(namespace) => 'new_name: {
 				let namespace_prefix = if namespace.is_empty() {
@@ -148,7 +167,11 @@ impl<'t> FieldTypeAndInstantiationsBuilder<'t, '_> {
 						variant_name.unraw(),
 					),
 				};
-				quote! { #type_name.to_owned() }
+				quote! {{
+					let mut name = #type_name.to_owned();
+					#add_type_id_to_newtype_struct_name
+					name
+				}}
 			}
 		};
 
